@@ -190,7 +190,7 @@ func (c14) Run(c *fw.Case) {
 		if c.Idx%4 == 2 {
 			draft = gen.D7
 		}
-		doc := gen.Schema(r, gen.SchemaOpts{Draft: draft, MaxDepth: 3, Refs: r.IntN(2) == 0, Uneval: true, Focus: "object", Names: gen.Names[:5]})
+		doc := gen.Schema(r, gen.SchemaOpts{Draft: draft, MaxDepth: 3, Refs: r.IntN(2) == 0, Uneval: true, Focus: "object", Names: c14Names(c)})
 		if m, ok := doc.(map[string]any); ok && draft == gen.D7 {
 			m["$schema"] = gen.Schema7URI
 		}
@@ -237,7 +237,7 @@ func (c14) Run(c *fw.Case) {
 			return
 		}
 	}
-	insts := gen.Instances(r, doc, 6, false, gen.Names[:5]...)
+	insts := gen.Instances(r, doc, 6, false, c14Names(c)...)
 	if dynInsts != nil {
 		insts = dynInsts
 	}
@@ -408,10 +408,23 @@ func (c14) loaderHistory(c *fw.Case) {
 		}
 		var rs *jsonschema.Resolved
 		var err error
-		if !c.CallChecked("Resolve", map[string]any{"root": json.RawMessage(rootText), "document": json.RawMessage(docText), "loader": what}, func() {
-			rs, err = root.Resolve(&jsonschema.ResolveOptions{BaseURI: "http://h/root.json", Loader: loader})
+		ro := &jsonschema.ResolveOptions{BaseURI: "http://h/root.json", Loader: loader}
+		if what == "caching" && (strings.Contains(rootText, "allOf") || strings.HasPrefix(rootText, `{"$ref"`)) {
+			ro.Loader = nil // (the remote reference then fails to load: an error, and still no write to the options)
+		}
+		hadLoader := ro.Loader != nil
+		if !c.CallChecked("Resolve", map[string]any{"root": json.RawMessage(rootText), "document": json.RawMessage(docText), "loader": what, "loader_set": hadLoader}, func() {
+			rs, err = root.Resolve(ro)
 		}) {
 			return "", false
+		}
+		if (ro.Loader != nil) != hadLoader || ro.BaseURI != "http://h/root.json" || ro.ValidateDefaults {
+			c.Violation("Resolve modified the ResolveOptions value it was given", map[string]any{"root": json.RawMessage(rootText), "loader_was_set": hadLoader, "loader_set_now": ro.Loader != nil, "base_uri_now": ro.BaseURI})
+			return "", false
+		}
+		if !hadLoader {
+			ro.Loader = loader
+			rs, err = root.Resolve(ro) // the outcome compared below is the one with the Loader
 		}
 		c.Eval(1)
 		if err != nil {
@@ -479,4 +492,14 @@ func (c14) loaderHistory(c *fw.Case) {
 	if len(distinct) >= 2 {
 		c.Nontrivial(fmt.Sprintf("loader-history|%d outcomes|draft%d", len(distinct), draft))
 	}
+}
+
+// c14Names: every third case uses names that differ only by case (ASCII and the Unicode folds K / KELVIN SIGN, s / LONG S):
+// an ordering that folds case has ties exactly there, and a tie broken by map iteration order shows as a result that
+// changes between repetitions.
+func c14Names(c *fw.Case) []string {
+	if c.Idx%3 == 1 {
+		return []string{"a", "A", "b", "B", "k", "\u212a", "s", "\u017f"}
+	}
+	return gen.Names[:5]
 }
